@@ -29,9 +29,14 @@ pub fn gen_cone(rng: &mut Rng, allow_dd: bool) -> Case {
   let thr = thresholds();
   loop {
     let mut depth = rng.below(30) as u8;
-    let dd = if allow_dd && rng.below(3) == 0 { (1 + rng.below(4) as u8).min(29 - depth.min(29)) } else { 0 };
+    // delta_depth of the custom variant: mostly 1..4, sometimes 5..12 (deep degradations, other z-order / packing regimes)
+    let dd = if allow_dd && rng.below(3) == 0 { (match rng.below(8) { 0..=5 => 1 + rng.below(4) as u8, 6 => 5 + rng.below(4) as u8, _ => 9 + rng.below(4) as u8 }).min(29 - depth.min(29)) } else { 0 };
     if depth + dd > 29 { depth = 29 - dd; }
-    let cell = 1.0 / nside(depth + dd) as f64;
+    // radii are drawn relative to the cells of the working depth (depth + dd); for dd >= 3 one cone in three is instead sized on the
+    // cells of the query depth (0.2..3 cells, dd capped at 8: at most a few thousand deep cells on the border)
+    let query_sized = dd >= 3 && dd <= 8 && rng.below(3) == 0;
+    let cell = 1.0 / nside(if query_sized { depth } else { depth + dd }) as f64;
+    if query_sized { let (lon, lat) = cone_center(rng); return Case::new("cone").u("depth", depth as u64).u("dd", dd as u64).f("lon", lon.rem_euclid(TWO_PI)).f("lat", lat).f("r", (cell * rng.range(0.2, 3.0)).min(PI)).u("s", rng.next() >> 1); }
     let r = match rng.below(9) {
       0 => cell * rng.log_uniform(1e-3, 1.0),
       1 => cell * rng.range(0.2, 3.2),
